@@ -97,6 +97,24 @@ def run(tier: str) -> int:
             jobs.append((key, gen_seq.render(body), None, "reject"))
         for key, body in ACCEPT_COMPILE_ONLY:
             jobs.append((key, gen_seq.render(body), None, "any"))
+        # select_with without default on an integer selector can never cover every value (design with an int port, compile result only)
+        from ..seqcheck import SeqProgram
+        p0 = gen_seq.render(["self.o1 <<= select_with(self.isel, {0: self.a, 1: self.b})"])
+        src_int = p0.source.replace("    sel = Port.input(BitVector[2])", "    sel = Port.input(BitVector[2])\n    isel = Port.input(int)", 1)
+        text_int, exc_int = None, None
+        try:
+            from ..core import try_compile, reset_cohdl_state
+            mod = wd.load(src_int, "c08i")
+            text_int, exc_int = try_compile(getattr(mod, p0.entity))
+        except BaseException as e:
+            if isinstance(e, (KeyboardInterrupt, SystemExit)):
+                raise
+            reset_cohdl_state()
+        rep.stats.programs += 1
+        if text_int is not None:
+            rep.violation("accepted|select_with-no-default-int-selector", "select_with without default on an integer selector accepted: for selector values without a branch the result temporary keeps a stale value", {"source": src_int, "vhdl": text_int})
+        else:
+            counts["rejected"] += 1
         jobs.append(("edge-if-temporary-used-after", _edge_process(["self.o1 <<= t"]), None, "reject"))
         jobs.append(("edge-if-temporary-used-inside", _edge_process(["    self.o1 <<= t"]), None, "any"))
         n_seq = 60 if tier == "quick" else 1200
